@@ -109,6 +109,59 @@ def aggOne (ts : Nat) (l : List DA) (code : Option Nat) : Agg := aggOf ts (aggSe
 /-- `agg_data(tuple_of_codes)` (gifti.py:808-809): one result per code, in the order asked -/
 def aggTuple (ts : Nat) (l : List DA) (codes : List Nat) : List Agg := codes.map (fun c => aggOne ts l (some c))
 
+/-! ### the intent ARGUMENT of the container methods (`intent_codes.code[intent]`, a `Recoder` lookup) -------- -/
+
+/-- what the caller may pass as an intent: the integer code (0 = NIFTI_INTENT_NONE, the default intent of
+    `GiftiDataArray`, is a valid — and falsy — code) or one of the string aliases (label / niistring) -/
+inductive IntentArg where
+  | code (n : Nat)
+  | name (s : Text)
+deriving DecidableEq, Repr
+
+/-- tables the `Recoder` lookup `intent_codes.code[key]` consults (volumeutils.Recoder: every field value of every
+    row is a key): `strs` string alias → code, `ints` the integer codes.  `none` = KeyError. -/
+def resolveIntentIn (strs : List (String × Nat)) (ints : List Nat) : IntentArg → Option Nat
+  | .code n => if ints.contains n then some n else none
+  | .name s => (strs.find? (fun p => p.1 == String.ofList s)).map (·.2)
+
+/-- `GiftiDataArray(data, intent=…)` (gifti.py:457-475) as far as the container is concerned: the new object `id`
+    with `self.intent = intent_codes.code[intent]`; no argument = the default `'NIFTI_INTENT_NONE'` (its code is the
+    regenerated `dflt`).  `none` = KeyError, no object is created. -/
+def newArrayIn (strs : List (String × Nat)) (ints : List Nat) (dflt : Nat) (id : Nat) : Option IntentArg → Option DA
+  | none => some ⟨id, dflt⟩
+  | some a => (resolveIntentIn strs ints a).map (fun c => ⟨id, c⟩)
+
+/-- `remove_gifti_data_array_by_intent(intent)` (gifti.py:683-686) with the lookup; a KeyError leaves the image
+    untouched (the lookup is the first statement) -/
+def removeByIntentArgIn (strs : List (String × Nat)) (ints : List Nat) (l : List DA) (a : IntentArg) :
+    Except Err (List DA) :=
+  match resolveIntentIn strs ints a with
+  | some c => .ok (removeByIntent l c)
+  | none => .error .other
+
+/-- `get_arrays_from_intent(intent)` (gifti.py:688-691) with the lookup -/
+def getArraysFromIntentArgIn (strs : List (String × Nat)) (ints : List Nat) (l : List DA) (a : IntentArg) :
+    Except Err (List DA) :=
+  match resolveIntentIn strs ints a with
+  | some c => .ok (getArraysFromIntent l c)
+  | none => .error .other
+
+/-- `agg_data(intent_code)` for a non-tuple argument (gifti.py:816-826): ONLY `None` means "all arrays"
+    (`self.darrays if intent_code is None else self.get_arrays_from_intent(intent_code)`) — the integer code 0 is an
+    intent like any other. -/
+def aggDataIn (strs : List (String × Nat)) (ints : List Nat) (ts : Nat) (l : List DA) : Option IntentArg → Except Err Agg
+  | none => .ok (aggOne ts l none)
+  | some a =>
+    match resolveIntentIn strs ints a with
+    | some c => .ok (aggOne ts l (some c))
+    | none => .error .other
+
+/-- `agg_data(tuple)` (gifti.py:813-814): `tuple(self.agg_data(intent_code=code) for code in intent_code)` — one
+    result per element in the order asked; an element may itself be `None` (all arrays); the first KeyError aborts. -/
+def aggDataTupleIn (strs : List (String × Nat)) (ints : List Nat) (ts : Nat) (l : List DA)
+    (as : List (Option IntentArg)) : Except Err (List Agg) :=
+  as.mapM (aggDataIn strs ints ts l)
+
 /-! ## byte codec and index order (used by (c)) ---------------------------------------------------- -/
 
 /-- little-endian bytes of the `w`-byte bit pattern `v` -/
@@ -176,6 +229,7 @@ def fromOrder (colMajor : Bool) (shape : List Nat) (flat : List Nat) : List Nat 
     to the code (`recoder.code[str]`); regenerated from the source into Generated/C17Codes.lean. -/
 structure Codes where
   intent : List (String × Nat)          -- nifti1.intent_codes: label and niistring → code
+  intentCodes : List Nat                -- nifti1.intent_codes: the integer codes themselves (also keys of `.code`)
   dtype : List (String × Nat)           -- nifti1.data_type_codes: label and niistring → code
   dtinfo : List (Nat × Nat × Char)      -- data type code → (itemsize, numpy kind) for the numeric u/i/f types
   xform : List (String × Nat)           -- nifti1.xform_codes
@@ -196,6 +250,14 @@ structure Codes where
 
 def lookup (tbl : List (String × Nat)) (s : Text) : Option Nat :=
   (tbl.find? (fun p => p.1 == String.ofList s)).map (·.2)
+
+/-- the container methods over the regenerated tables -/
+def resolveIntent (K : Codes) : IntentArg → Option Nat := resolveIntentIn K.intent K.intentCodes
+def newArray (K : Codes) : Nat → Option IntentArg → Option DA := newArrayIn K.intent K.intentCodes K.daDefaults.1
+def removeByIntentArg (K : Codes) := removeByIntentArgIn K.intent K.intentCodes
+def getArraysFromIntentArg (K : Codes) := getArraysFromIntentArgIn K.intent K.intentCodes
+def aggData (K : Codes) := aggDataIn K.intent K.intentCodes K.timeSeries
+def aggDataTuple (K : Codes) := aggDataTupleIn K.intent K.intentCodes K.timeSeries
 
 /-- external functions with their contracts (see Props/C17: `Ext.Good`) -/
 structure Ext where
